@@ -94,6 +94,29 @@ fn main() {
             let p = &mc::checks::c04::selected_pub(Tier::Quick)[k];
             println!("{}\n{}", p.name(), p.yml());
         }
+        "leak" => {
+            // debugging aid: RSS growth per engine instance
+            mc::world::install_panic_hook_quiet();
+            let n: usize = args.get(2).and_then(|s| s.parse().ok()).unwrap_or(2000);
+            let rss = || std::fs::read_to_string("/proc/self/statm").ok().and_then(|s| s.split_whitespace().nth(1).and_then(|x| x.parse::<u64>().ok())).unwrap_or(0) * 4 / 1024;
+            for i in 0..n {
+                let mode = std::env::var("LEAK_MODE").unwrap_or_default();
+                let cfg = if mode.contains("sqlite") { let mut c = mc::world::Cfg::keep(); c.sqlite = Some("@scratch".into()); c } else { mc::world::Cfg::keep() };
+                let mut sess = mc::world::Session::new(&cfg);
+                if !mode.contains("new-only") {
+                    sess.deploy(mc::wgen::W2);
+                    if !mode.contains("deploy-only") {
+                        let _ = sess.start("w2", &mc::checks::common::vars_of(&serde_json::json!({"pid": "p1"})));
+                        sess.drain();
+                    }
+                }
+                if i % 500 == 0 {
+                    println!("fds {}", std::fs::read_dir("/proc/self/fd").map(|d| d.count()).unwrap_or(0));
+                    println!("{i}: rss {} MB", rss());
+                }
+            }
+            println!("end: rss {} MB", rss());
+        }
         "items" => {
             let id = &args[2];
             let tier = Tier::parse(args.get(3).map(|s| s.as_str()).unwrap_or("quick"));
